@@ -223,6 +223,11 @@ class ApiAdapter:
         if name == 'stats':
             h, m = c.stats(enable=bool(a['en']), reset=bool(a['rs']))
             return R('pair', [h, m])
+        if name == 'tagindex':
+            (c.create_tag_index if a['on'] else c.drop_tag_index)()
+            return R('none')
+        if name == 'volume':
+            return R('int', [int(c.volume())])
         raise MachineryError('unknown abstract operation %r' % (name,))
 
 
